@@ -49,6 +49,14 @@ type tcase struct {
 	// typedef twice); the Go side must finish, not crash, and report exactly ExpectErrors.
 	GoOnly       bool     `json:"go_only,omitempty"`
 	ExpectErrors []string `json:"expect_process_errors,omitempty"`
+	// A packaging (pack.go) of the case Base: the same statements in the load order Pack names,
+	// cut into source texts as Pack says ("2+0,1": files 2 and 0 in one text, then file 1); Segs
+	// maps the lines of the packaged texts back to the original files.  Versus (replay files only)
+	// is the one-statement-per-text form with the same load order, which must show the same.
+	Base   string `json:"base,omitempty"`
+	Pack   string `json:"pack,omitempty"`
+	Segs   []seg  `json:"segs,omitempty"`
+	Versus *tcase `json:"versus,omitempty"`
 }
 
 func (c tcase) all() []srcFile {
@@ -653,13 +661,13 @@ func specCheck(g goRes, spec map[string]string) []string {
 			case strings.HasPrefix(v, "NOCLAIM"):
 			case v == "ERR":
 				if len(o.Errs) == 0 {
-					bad = append(bad, fmt.Sprintf("leaf %s: the reference is unknown, unresolvable or cyclic but no error is reported (type %s)", key, o.Spec))
+					bad = append(bad, fmt.Sprintf("leaf %s: 'an unknown, unresolvable or cyclic type reference is an error': the reference is unknown, unresolvable or cyclic but no error is reported (type %s)", key, o.Spec))
 				}
 			case strings.HasPrefix(v, "T"):
 				if hasBinding {
-					bad = append(bad, fmt.Sprintf("leaf %s: the reference binds (%s) but is reported as %v", key, v[1:], o.Errs))
+					bad = append(bad, fmt.Sprintf("leaf %s: 'a type reference binds lexically' (nearest enclosing scope, then the module and its submodules; a foreign prefix: the imported module): every name of the derivation is bound but the reference is reported as %v; binding gives %s", key, o.Errs, v[1:]))
 				} else if len(o.Errs) == 0 && o.Spec != v[1:] {
-					bad = append(bad, fmt.Sprintf("leaf %s: resolved type shows %s, binding and inheritance give %s", key, o.Spec, v[1:]))
+					bad = append(bad, fmt.Sprintf("leaf %s: 'binds lexically / carries the attributes of the whole derivation chain': resolved type shows %s, lexical binding and inheritance give %s", key, o.Spec, v[1:]))
 				}
 			}
 		}
@@ -722,6 +730,16 @@ func main() {
 	var cases []tcase
 	corpus := loadCorpus()
 	cases = append(cases, corpus...)
+	// packagings (pack.go): every corpus set in every load order, run right after the corpus
+	pk := newPacker()
+	{
+		r := f.Rand(7002)
+		for _, c := range corpus {
+			pk.full(c, r)
+		}
+	}
+	nCorpusPacked := len(pk.cases)
+	cases = append(cases, pk.cases...)
 	exh := exhaustiveCases()
 	cases = append(cases, exh...)
 	col := collisionCases()
@@ -761,6 +779,47 @@ func main() {
 	for _, l := range rnd {
 		cases = append(cases, l...)
 	}
+	// schemas with typedefs at every kind of scope in every statement: only ever looked at packaged
+	nScope := 160
+	if f.Thorough() {
+		nScope = 4000
+	}
+	var scope []tcase
+	{
+		r := f.Rand(7000)
+		for i := 0; i < nScope; i++ {
+			scope = append(scope, scopeCase(r, fmt.Sprintf("scope/%d", i)))
+		}
+	}
+	cases = append(cases, scope...)
+	// packagings of a share of each generated group
+	{
+		r := f.Rand(7001)
+		every := map[string]int{"exh": 8, "col": 6, "rnd": 8, "odd": 4, "chain": 8, "rev": 8, "hist": 8}
+		count := map[string]int{}
+		for _, c := range cases {
+			grp := strings.SplitN(c.ID, "/", 2)[0]
+			switch grp {
+			case "corpus":
+			case "scope":
+				// (the files of a generated case are in random order already)
+				pk.cat(c, identity(len(c.Files)), nil)
+				pk.pairs(c, identity(len(c.Files)), true, r)
+				if r.Intn(2) == 0 {
+					pk.pairs(c, reversed(identity(len(c.Files))), false, r)
+				}
+			default:
+				if len(c.Files)+len(c.Later) < 2 {
+					continue
+				}
+				count[grp]++
+				if count[grp]%every[grp] == 0 {
+					pk.some(c, r, 1)
+				}
+			}
+		}
+	}
+	cases = append(cases, pk.cases[nCorpusPacked:]...)
 
 	if *dumpFlag != "" {
 		for _, c := range cases {
@@ -780,6 +839,9 @@ func main() {
 	var oddStatus []string
 	var leaves, viaTypedef, bindErrs, specT, specErr, specNo int64
 	evaluated := 0
+	packObsOf := map[string]packObs{}
+	caseAt := map[string]int{}
+	reported := map[string]bool{}
 	const batchSize = 3000
 	for lo := 0; lo < len(cases); lo += batchSize {
 		hi := lo + batchSize
@@ -822,6 +884,10 @@ func main() {
 		}
 		for i, c := range batch {
 			g := gos[i]
+			if c.Base != "" || pk.isRef[c.ID] {
+				packObsOf[c.ID] = canonPackObs(g, c.Segs)
+				caseAt[c.ID] = lo + i
+			}
 			if c.GoOnly {
 				status["go-only"]++
 				what := ""
@@ -922,18 +988,50 @@ func main() {
 			case len(diffs) > 0:
 				what = "goyang and the model differ: " + strings.Join(head(diffs, 3), " ;; ")
 				if len(sbad) > 0 {
-					what += " || specification: " + strings.Join(head(sbad, 2), " ;; ")
+					// the violated clause first: the dispatcher prints the head of the text
+					what = "specification violated: " + strings.Join(head(sbad, 2), " ;; ") + " || " + what
 				}
 			default:
 				kind = "spec"
 				what = "goyang's result (equal to the model's) violates the specification: " + strings.Join(head(sbad, 3), " ;; ")
 			}
+			if c.Base != "" {
+				what = "[the files of " + c.Base + " as source texts " + c.Pack + " ('+' joins files into one text)] " + what
+			}
+			reported[c.ID] = true
 			res.AddDisagreement(lib.Disagreement{Kind: kind, Input: c, Go: g, Model: ans[i], SpecVerdict: verdict, What: trunc(what, 1500), Replay: c})
 		}
 	}
+	// packagings against the one-statement-per-text form with the same load order
+	var packCompared, packAlready int64
+	for _, v := range pk.cases {
+		ref, ok := pk.refOf[v.ID]
+		if !ok {
+			continue
+		}
+		a, okA := packObsOf[ref]
+		b, okB := packObsOf[v.ID]
+		if !okA || !okB {
+			continue
+		}
+		packCompared++
+		d := packDiff(a, b)
+		if len(d) == 0 {
+			continue
+		}
+		if reported[v.ID] || reported[ref] || len(res.Disagreements) >= 50 {
+			packAlready++
+			continue
+		}
+		in := v
+		rc := cases[caseAt[ref]]
+		in.Versus = &rc
+		res.AddDisagreement(lib.Disagreement{Kind: "packaging", Input: in, Go: d, SpecVerdict: "holds", Replay: in,
+			What: trunc("binding is lexical, so what a set of statements resolves to does not depend on how they are distributed over source texts: the files of "+v.Base+" as source texts "+v.Pack+" ('+' joins files into one text) differ from the same statements in the same load order, one per text: "+strings.Join(head(d, 3), " ;; "), 1500)})
+	}
 	res.Evaluations = int64(evaluated)
 	res.DistinctNontrivial = nontrivial
-	res.Rule = "distinct schema sets (by content) in which at least one leaf resolves through a typedef (resolved name differs from the base kind) or is rejected with a binding error (unknown type, unknown prefix, cycle); every case = load all files, Process() twice (history cases: then load further files - other revisions of an imported module - into the same Modules and Process() twice again; the model answers for all texts together, i.e. for a fresh load), dump Entry.Type / DefaultValues / Errors of every leaf entry (Dir, rpc input/output, augments) and Type.YangType of every AST leaf, compared with the model's per-statement answer and with the specification's binding + inheritance"
+	res.Rule = "distinct schema sets (by content and distribution of the statements over source texts) in which at least one leaf resolves through a typedef (resolved name differs from the base kind) or is rejected with a binding error (unknown type, unknown prefix, cycle); every case = load all files, Process() twice (history cases: then load further files - other revisions of an imported module - into the same Modules and Process() twice again; the model answers for all texts together, i.e. for a fresh load), dump Entry.Type / DefaultValues / Errors of every leaf entry (Dir, rpc input/output, augments) and Type.YangType of every AST leaf, compared with the model's per-statement answer and with the specification's binding + inheritance"
 	res.Distribution["corpus_cases"] = len(corpus)
 	res.Distribution["exhaustive_binding_cases"] = len(exh)
 	res.Distribution["exhaustive_prefix_vs_module_name_cases"] = len(col)
@@ -942,6 +1040,11 @@ func main() {
 	res.Distribution["chain_depth5_cases"] = nChain / shards * shards
 	res.Distribution["multi_revision_import_cases"] = nRev / shards * shards
 	res.Distribution["load_process_load_process_history_cases"] = nHist / shards * shards
+	res.Distribution["typedef_at_every_scope_of_every_statement_cases"] = nScope
+	res.Distribution["packaged_cases"] = len(pk.cases)
+	res.Distribution["packaged_cases_by_kind"] = pk.kinds
+	res.Distribution["packagings_compared_with_one_statement_per_text"] = packCompared
+	res.Distribution["packaging_differences_already_reported_by_the_model_comparison"] = packAlready
 	res.Distribution["model_status"] = status
 	res.Distribution["cases_not_loaded_by_either_side"] = oddStatus
 	res.Distribution["spec_verdicts_by_group"] = groupStats
@@ -955,6 +1058,7 @@ func main() {
 	res.Notes = append(res.Notes,
 		"a cyclic definition is compared by class only: which statement of the cycle is named depends on where the memoising traversal entered it first",
 		"sets in which an include/import does not resolve are compared only on Process() reporting it",
+		"packagings: every corpus set of two or more files in every load order (up to 3 files; identity, reverse and rotations beyond), and a share of every generated group (1 in 4 to 8; all scope/ cases), is loaded again with the same statements cut into source texts differently: all in one text, a module with its submodule in one text, an importer with an imported module in one text; a packaged case is compared with the model and judged by the specification like any other, and its Go observation (types, defaults, errors per leaf, Process() errors; positions mapped back) with that of the one-statement-per-text form in the same load order",
 		"multi-revision cases: module b in 2-3 revisions with differing same-named typedefs, imports pinned by revision-date / unpinned / pinned to an absent revision, one or two imports of b per importer, references direct, through typedefs of typedefs, unions and a third module")
 	res.Write(f.Out)
 }
@@ -1035,8 +1139,29 @@ func replay(f *lib.Flags) {
 	if len(sbad) > 0 || g.Panic != "" {
 		v = "violates"
 	}
+	var pd []string
+	if c.Versus != nil {
+		// the same statements in the same load order, one per text
+		rg := runAllGo([]tcase{*c.Versus}, 1)[0]
+		for _, fl := range c.Versus.all() {
+			fmt.Printf("--- (one statement per text) %s\n%s\n", fl.Name, fl.Text)
+		}
+		rb, _ := json.MarshalIndent(rg, "", " ")
+		fmt.Printf("go, one statement per text: %s\n", rb)
+		pd = packDiff(canonPackObs(rg, c.Versus.Segs), canonPackObs(g, c.Segs))
+		for _, x := range pd {
+			fmt.Println("PACKAGING DIFF:", x)
+		}
+		if rw, err := wire(*c.Versus); err == nil {
+			rsans, _ := d.Ask("spec.types " + rw)
+			for _, x := range specCheck(rg, parseSpec(rsans)) {
+				fmt.Println("SPEC VIOLATED (one statement per text):", x)
+				v = "violates"
+			}
+		}
+	}
 	fmt.Println("spec verdict:", v)
-	if len(diffs) > 0 || len(sbad) > 0 {
+	if len(diffs) > 0 || len(sbad) > 0 || len(pd) > 0 {
 		os.Exit(1)
 	}
 }
